@@ -11,7 +11,7 @@ Local Open Scope nat_scope.
 Theorem too_small_writes_without_check_refuted :
   exists c t o capB, up_front c = false /\ 8 * capB < bmax t /\ forallb (acc_ok capB) (snd (walk_ser_safe c t o capB)) = false.
 Proof.
-  exists {| ov := fun _ n => n; up_front := false; little := false; al := dyn_al; len_chk_storage := false; guarded := false; ptr_clamp := true; bulk_on := true |},
+  exists {| ov := fun _ n => n; up_front := false; little := false; al := dyn_al; len_chk_storage := false; guarded := false; ptr_clamp := true; bulk_on := true; nested_strict := false; plan := all_first |},
          (TComp false [TPrim (PU 8 true)] None), (CStruct [CPrim (VInt 1)]), 0.
   split; [reflexivity|]. split; [vm_compute; lia | vm_compute; reflexivity].
 Qed.
@@ -22,7 +22,7 @@ Theorem des_in_bounds_override_refuted :
   exists c t prior buf capB, length buf = 8 * capB /\ wf_ty t = true /\
     fst (walk_des_safe c t prior buf) <> Err EBadLen /\ forallb (acc_ok capB) (snd (walk_des_safe c t prior buf)) = false.
 Proof.
-  exists {| ov := fun _ _ => 2; up_front := false; little := false; al := dyn_al; len_chk_storage := false; guarded := false; ptr_clamp := true; bulk_on := true |},
+  exists {| ov := fun _ _ => 2; up_front := false; little := false; al := dyn_al; len_chk_storage := false; guarded := false; ptr_clamp := true; bulk_on := true; nested_strict := false; plan := all_first |},
          (TComp false [TVar (TPrim (PU 7 true)) 8] None),
          (CStruct [CVar 0 [CPrim (VInt 0); CPrim (VInt 0)]]), (bits_of_bytes [5; 1; 2; 3; 4; 5; 0]%N), 7.
   split; [reflexivity|]. split; [reflexivity|]. split; [vm_compute; discriminate | vm_compute; reflexivity].
@@ -32,7 +32,7 @@ Theorem ser_in_bounds_override_refuted :
   exists c t o capB, bmax t <= 8 * capB /\ wf_ty t = true /\
     fst (walk_ser_safe c t o capB) <> Err EBadLen /\ forallb (acc_ok capB) (snd (walk_ser_safe c t o capB)) = false.
 Proof.
-  exists {| ov := fun _ _ => 2; up_front := false; little := false; al := dyn_al; len_chk_storage := false; guarded := false; ptr_clamp := true; bulk_on := true |},
+  exists {| ov := fun _ _ => 2; up_front := false; little := false; al := dyn_al; len_chk_storage := false; guarded := false; ptr_clamp := true; bulk_on := true; nested_strict := false; plan := all_first |},
          (TComp false [TVar (TPrim (PU 7 true)) 8] None),
          (CStruct [CVar 5 [CPrim (VInt 0); CPrim (VInt 0)]]), 8.
   split; [vm_compute; lia|]. split; [reflexivity|]. split; [vm_compute; discriminate | vm_compute; reflexivity].
@@ -42,7 +42,7 @@ Qed.
 (* the pre-fix rendering (`&buffer[offset_bits / 8U]`, fixed in 9be3c74) once implicit zero extension has moved the cursor past
    the end: struct { uint64 big; In inner } decoded from 2 bytes forms &buffer[8] (F-C-PTR-PAST-END); kept as documentation *)
 Definition old_ptr_cfg : cfg :=
-  {| ov := fun _ n => n; up_front := true; little := false; al := dyn_al; len_chk_storage := false; guarded := false; ptr_clamp := false; bulk_on := true |}.
+  {| ov := fun _ n => n; up_front := true; little := false; al := dyn_al; len_chk_storage := false; guarded := false; ptr_clamp := false; bulk_on := true; nested_strict := false; plan := all_first |}.
 Theorem des_ptr_in_bounds_refuted :
   exists t prior buf capB, wf_ty t = true /\ length buf = 8 * capB /\
     forallb (ptr_ok capB) (snd (walk_des_safe old_ptr_cfg t prior buf)) = false.
@@ -64,7 +64,8 @@ Proof. exists [1; 2; 3], [9; 8]. vm_compute. discriminate. Qed.
 (* any_bitspan::subspan() before 939fc9d: data_.data() + offset_bytes with offset_bytes > size (F-CPP-PTR-PAST-END) *)
 Theorem cpp_des_ptr_in_bounds_refuted :
   exists t prior buf capB, wf_ty t = true /\ length buf = 8 * capB /\
-    forallb (ptr_ok capB) (snd (walk_des_safe (cpp_cfg false) t prior buf)) = false.
+    forallb (ptr_ok capB) (snd (walk_des_safe {| ov := fun _ n => n; up_front := true; little := false; al := fun _ => false; len_chk_storage := false; guarded := false;
+     ptr_clamp := false; bulk_on := false; nested_strict := true; plan := all_first |} t prior buf)) = false.
 Proof.
   exists (TComp false [TPrim (PU 64 true); TComp false [TPrim (PU 8 true); TPrim (PU 8 true)] None] None), dflt,
          (bits_of_bytes [1; 2]%N), 2.
